@@ -200,6 +200,20 @@ func newWorld(rng *RNG) *world {
 		}
 		w.addrs = append(w.addrs, gAddr{Name: name, IP: fmt.Sprintf("10.1.1.%d/32", i)})
 	}
+	if rng.Chance(35) {
+		// addresses whose names have the very shape that the code gives to a group it has to transfer under a fresh
+		// name (`G-1`, `G-2`): addresses and address-groups share one name space on the device (seeded change C03-W1)
+		for k, m := 0, 1+rng.Intn(4); k < m; k++ {
+			name := fmt.Sprintf("g%d-%d", rng.Intn(6), 1+rng.Intn(2))
+			dup := false
+			for _, a := range w.addrs {
+				dup = dup || a.Name == name
+			}
+			if !dup {
+				w.addrs = append(w.addrs, gAddr{Name: name, IP: fmt.Sprintf("10.1.2.%d/32", 10+k)})
+			}
+		}
+	}
 	w.addrs = append(w.addrs, gAddr{Name: "RANGE_10.1.1.3-7", IP: "10.1.1.3-10.1.1.7", Kind: "ip-range"},
 		gAddr{Name: "FQDN_a.example.com", IP: "a.example.com", Kind: "fqdn"})
 	for _, p := range []string{"tcp 80", "tcp 443", "udp 123", "tcp 22", "udp 53", "tcp 8080"} {
